@@ -591,7 +591,14 @@ class C20(Check):
             "hyphens / capitals / '-lines'), indent None/2/4, properties and lnk flags, predicate modifiers, input "
             "as path string, Path, open file, StringIO, or a test-suite directory with one of 7 selection queries; "
             "plus invalid names, unsupported pairs, two-column selections, codecs without reader/writer, and lists "
-            "holding items the PENMAN targets cannot encode (error isolation). Non-trivial: at least one item; "
+            "holding items with a dangling link/edge that the target cannot encode (error isolation); 40% of the lists "
+            "contain byte-identical items (adjacent, non-adjacent, all the same), deterministically for every input kind, "
+            "selection query and '-lines' source; in every run long sources: for simplemrs/simpledmrs/eds/indexedmrs 16 "
+            "documents each of 15-60 items beyond 1024 and 2048 lexer tokens whose later item boundaries move one token "
+            "at a time (a leading item with k = 0..7 lnk tokens), for mrx/dmrx/mrsjson/dmrsjson/edsjson texts beyond "
+            "16 and 64 KiB, long PENMAN and ACE sources, through path, Path, open file, stream and profile directory "
+            "to same- and cross-representation targets with and without '-lines'; Indexed MRS with a harness-made "
+            "SEM-I as source and target. Non-trivial: at least one item; "
             "distinct by JSON text.")
     assumptions = [
         "items are opaque texts in the model: that one item's encode/decode round-trips is C01-C03's claim; here only "
